@@ -56,6 +56,8 @@ func main() {
 		os.Exit(runList())
 	case "selftest":
 		os.Exit(runSelftest(os.Args[2:]))
+	case "locals":
+		os.Exit(runLocals())
 	default:
 		fmt.Fprintln(os.Stderr, "unknown command", os.Args[1])
 		os.Exit(2)
